@@ -40,10 +40,74 @@ type triple struct {
 	Msg    pu.HB  `json:"msg"`
 	Sig    pu.HB  `json:"sig"`
 	PK     pu.HB  `json:"pk"`
+	// W: Winternitz parameter the triple is made for and verified with (0 = 16 = plain Verify); 4 and 256 go
+	// through VerifyWithCustomWOTSParamW only
+	W uint32 `json:"w,omitempty"`
+}
+
+// specVerifyW is pu.SpecXMSSVerify for w in {4,256}: same descriptor rules, signature length for that w, reference
+// verifier with the RFC 8391 formulas instantiated for that w.
+func specVerifyW(w uint32, msg, sig, pk []byte) bool {
+	if len(pk) != 67 {
+		return false
+	}
+	hash, sigType, height := uint(pk[0]&0xf), uint(pk[0]>>4), int(pk[1]&0xf)*2
+	if sigType != 0 || hash > 2 || height < 4 || height > 30 {
+		return false
+	}
+	p := xmssref.ParamsFor(int(w))
+	if len(sig) != xmssref.SigLenW(p, height) {
+		return false
+	}
+	return xmssref.VerifyW(p, xmssref.Hash(hash), height, pk[3:35], pk[35:67], msg, sig)
+}
+
+// judgeW is judge for a triple made for w = 4 or 256.
+func judgeW(r *ev.Recorder, c *triple) (string, string) {
+	var epk [67]byte
+	copy(epk[:], c.PK)
+	gMsg, okMsg := pu.Guard(c.Msg)
+	gSig, okSig := pu.Guard(c.Sig)
+	var lib bool
+	out := ev.Try(func() { lib = xmss.VerifyWithCustomWOTSParamW(gMsg, gSig, epk, c.W) })
+	lib = lib && !out.Panicked
+	r.Eval(1)
+	if !okMsg() || !okSig() {
+		return c.Class + "/input-modified", c.Detail + ": VerifyWithCustomWOTSParamW wrote into a caller's slice or the spare capacity behind it"
+	}
+	if out.Panicked && !out.IsString {
+		return c.Class + "/non-string-panic", fmt.Sprintf("%s: VerifyWithCustomWOTSParamW(%d) raised %s", c.Detail, c.W, out)
+	}
+	spec := specVerifyW(c.W, c.Msg, c.Sig, c.PK)
+	if lib && !spec {
+		return c.Class + "/accepts-invalid", fmt.Sprintf("%s: library ACCEPTS with w=%d, specification-level verifier rejects", c.Detail, c.W)
+	}
+	switch c.Expect {
+	case "accept":
+		if !spec {
+			return "HARNESS", c.Detail + ": reference rejects a triple that is valid by construction"
+		}
+		if !lib {
+			return c.Class + "/rejects-valid", fmt.Sprintf("%s: library does not accept a valid w=%d triple (%s)", c.Detail, c.W, out)
+		}
+	case "reject":
+		if spec {
+			return "HARNESS", c.Detail + ": reference accepts a triple that is invalid by construction"
+		}
+	}
+	// the same bytes handed to plain Verify (w = 16): the length cannot be a w=16 length for the declared height
+	if acc, o := pu.LibXMSSVerify(c.Msg, c.Sig, c.PK); acc || (o.Panicked && !o.IsString) {
+		return c.Class + "/w16-accepts-other-w", fmt.Sprintf("%s: plain Verify on a w=%d signature: accepted=%v %s", c.Detail, c.W, acc, o)
+	}
+	r.Count(fmt.Sprintf("w%d_lib_accepts_%v", c.W, lib), 1)
+	return "", ""
 }
 
 // judge runs the library and the reference on one triple. Returns ("","") if fine.
 func judge(r *ev.Recorder, c *triple) (string, string) {
+	if c.W != 0 && c.W != 16 {
+		return judgeW(r, c)
+	}
 	msg0, sig0, pk0 := append([]byte{}, c.Msg...), append([]byte{}, c.Sig...), append([]byte{}, c.PK...)
 	gMsg, okMsg := pu.Guard(c.Msg)
 	gSig, okSig := pu.Guard(c.Sig)
@@ -524,7 +588,7 @@ func TestMutators(t *testing.T) {
 
 func TestFabricated(t *testing.T) {
 	r := ev.New(t, prop, "TestFabricated")
-	r.Rule("triples that satisfy the verification equation by construction for EVERY supported height 4..30 and indices up to 2^h-1 (WOTS key at the index derived from drawn key material, arbitrary authentication siblings, root = what the path hashes to; no tree is built): the library must accept them, and must reject each after one drawn corruption; non-trivial = every case (heights 10..30 are unreachable with real keys), distinct by (hash,h,index,variant)")
+	r.Rule("triples that satisfy the verification equation by construction for EVERY supported height 4..30 and indices up to 2^h-1 (WOTS key at the index derived from drawn key material, arbitrary authentication siblings, root = what the path hashes to; no tree is built): the library must accept them, and must reject each after one drawn corruption; the same for Winternitz parameters 4 and 256 through VerifyWithCustomWOTSParamW (reference = the RFC 8391 parameter and checksum formulas instantiated for that w), including a flipped bit in a checksum chain and the one-bit-off root; non-trivial = every case (heights 10..30 are unreachable with real keys), distinct by (hash,h,index,variant)")
 	checks := r.PerShard(r.Pick(500, 12000))
 	r.Rapid(t, "fab", checks, func(rt *rapid.T) {
 		hf := rapid.SampledFrom(pu.Hashes).Draw(rt, "hash")
@@ -598,6 +662,39 @@ func TestFabricated(t *testing.T) {
 		pk3 = append(pk3, mat[32:64]...)
 		report(rt, r, &triple{Class: "fabricated-root-one-bit-off", Detail: fmt.Sprintf("%s: WOTS chains, L-tree and path all consistent, claimed root differs from the recomputed root in bit %d only", tag, tb), Expect: "reject", Msg: msg, Sig: sig3, PK: pk3})
 		r.NonTrivial(uint(hf), h, idx, "root-bit", tb)
+		// the other two Winternitz parameters the verifier offers (nothing in the library signs with them): a
+		// fabricated valid triple, one corruption, and the claimed root one bit off
+		w := rapid.SampledFrom([]uint32{4, 256}).Draw(rt, "w")
+		wp := xmssref.ParamsFor(int(w))
+		sigW, rootW := xmssref.FabricateW(wp, pu.RefHash(hf), h, idx, msg, mat[0:32], mat[32:64], mat[64:96], sibs, -1)
+		pkW := append(append([]byte{byte(hf), byte(h / 2), 0}, rootW...), mat[32:64]...)
+		tagW := fmt.Sprintf("%s w=%d", tag, w)
+		report(rt, r, &triple{Class: "fabricated-valid-other-w", Detail: tagW, Expect: "accept", Msg: msg, Sig: sigW, PK: pkW, W: w})
+		cw := &triple{Class: "fabricated-other-w-corrupted", Detail: tagW, Expect: "reject", Msg: msg, Sig: sigW, PK: pkW, W: w}
+		switch rapid.IntRange(0, 3).Draw(rt, "wCorruption") {
+		case 0:
+			// a bit in one of the checksum chains (the last len2 blocks of the WOTS part)
+			off := 36 + (wp.Len-1-rapid.IntRange(0, wp.Len2-1).Draw(rt, "csChain"))*32
+			cw.Sig = flip(sigW, off*8+rapid.IntRange(0, 255).Draw(rt, "bit"))
+			cw.Detail += " bit flipped in a checksum chain block"
+		case 1:
+			cw.Sig = flip(sigW, rapid.IntRange(0, len(sigW)*8-1).Draw(rt, "bit"))
+			cw.Detail += " signature bit flipped"
+		case 2:
+			if len(msg) == 0 {
+				cw.Msg = []byte{1}
+			} else {
+				cw.Msg = flip(msg, rapid.IntRange(0, len(msg)*8-1).Draw(rt, "bit"))
+			}
+			cw.Detail += " message bit flipped"
+		default:
+			s3, r3 := xmssref.FabricateW(wp, pu.RefHash(hf), h, idx, msg, mat[0:32], mat[32:64], mat[64:96], sibs, tb)
+			cw.Sig, cw.PK = s3, append(append([]byte{byte(hf), byte(h / 2), 0}, r3...), mat[32:64]...)
+			cw.Detail += fmt.Sprintf(" claimed root one bit (%d) off", tb)
+		}
+		report(rt, r, cw)
+		r.NonTrivial(uint(hf), h, idx, "other-w", w, cw.Detail)
+		r.Count(fmt.Sprintf("fabricated_w_%d", w), 1)
 		r.Count("root_one_bit_off", 1)
 	})
 	// enumerated: every one of the 256 root bits, one fabricated triple per hash function (h=4)
